@@ -852,6 +852,7 @@ def explore_many_subscribers(run, focus):
     library): each receives every publication exactly once per kind, and the first subscribers are still served (oracle only)"""
     rng = run.rng
     n = rng.choice([501, 503, 520, 600])
+    backlog = rng.choice([300, 501, 640])
     with dsched.Installed():
         sched = dsched.Sched(dsched.round_robin_chooser(), max_steps=20000, trace=False, yield_filter=yield_filter)
         dsched.Sched.current = sched
@@ -862,12 +863,16 @@ def explore_many_subscribers(run, focus):
                 import itertools
                 mao.FabricEvent.sequence = itertools.count()
             af = mao.ActiveFabric()
-            qs = [collections.deque(maxlen=10) for _ in range(n)]
+            qs = [collections.deque(maxlen=200) for _ in range(n)]
 
             def client():
                 for q in qs:
                     af.subscribe(q, Event(signal="S0"), queue_type="fifo")
                     af.subscribe(q, Event(signal="S0"), queue_type="lifo")
+                # ... and several hundred publications waiting before the delivery threads exist, on several hundred signals
+                for k in range(backlog):
+                    af.subscribe(qs[k % 7], Event(signal="M%d" % k), queue_type="fifo")
+                    af.publish(Event(signal="M%d" % k, payload=1000 + k), priority=rng.choice([1, 5, 1000]) if k % 3 else 7)
                 af.start()
                 af.publish(Event(signal="S0", payload=1))
                 af.publish(Event(signal="S0", payload=2), priority=5)
@@ -879,13 +884,14 @@ def explore_many_subscribers(run, focus):
             counts = [collections.Counter(e.payload for e in q) for q in qs]
         finally:
             sched.shutdown()
-    cj = {"what": "many-subscribers", "queues": n}
+    cj = {"what": "many-subscribers", "queues": n, "backlog": backlog}
     run.count("several hundred subscriber queues on one signal")
     run.traces_validated += 1
     if errors:
         run.violate("%s/thread-error" % focus, "%d subscribers on one signal: %s" % (n, errors[:2]), cj)
     elif counts is not None:
-        bad = [i for i, c in enumerate(counts) if c != collections.Counter({1: 2, 2: 2})]
+        extra = [collections.Counter({1000 + k: 1 for k in range(backlog) if k % 7 == i}) for i in range(n)]
+        bad = [i for i, c in enumerate(counts) if c != collections.Counter({1: 2, 2: 2}) + extra[i]]
         if bad:
             run.violate("%s/delivery-count" % focus, "%d queues subscribed (fifo and lifo) to one signal, two publications: queues %s%s did not receive "
                         "each publication once per kind, e.g. queue %d holds %s" % (n, bad[:5], "..." if len(bad) > 5 else "", bad[0], dict(counts[bad[0]])), cj)
